@@ -673,6 +673,13 @@ static void runC10() {
     std::string d = !b.clean ? b.crashClause + " " + b.crashDetail.substr(0, 800)
                              : jstr(b.report["violations"]).substr(0, 800);
     std::string cl = !b.clean ? b.crashClause : "C10.fault-free-run";
+    // a violation already in the fault-free run is reported (and replayed)
+    // under its own clause
+    if (b.clean && !b.report["violations"].empty()) {
+      cl = b.report["violations"][0].get("clause", cl).asString();
+      d = "fault-free run: " +
+          b.report["violations"][0].get("detail", "").asString().substr(0, 800);
+    }
     violate(cl, d);
     R.replayPlan[cl] = base;
     return;
